@@ -381,6 +381,17 @@ impl Skel {
             out.push(rn);
         }
     }
+    /// the depth of the relationship closure of a part: the length of the longest chain of relationship parts
+    /// followed from it (no relationship part = 0, the part's own only = 1, sheet -> drawing = 2, ...); capped like `closure`
+    pub fn closure_depth(&self, part: &str, depth: usize) -> usize {
+        if depth > 12 {
+            return 0;
+        }
+        match self.rels.get(&rels_name_of(part)) {
+            Some(rels) => 1 + rels.iter().filter(|r| !r.external).map(|r| self.closure_depth(&r.resolved, depth + 1)).max().unwrap_or(0),
+            None => 0,
+        }
+    }
 }
 
 /// parts that belong to the workbook level (not written by the per-sheet machinery); outside the model
@@ -666,7 +677,12 @@ fn status(book: &Spreadsheet) -> String {
 // generated multi-sheet files (built with the library, saved, then reopened lazily by `reset`)
 
 pub fn generate(spec: &str) -> Result<Vec<u8>, String> {
-    // spec = g<seed>
+    // spec = g<seed>, or d<seed>: the same file with a chart AND a picture on every sheet (sheet -> drawing -> chart / image:
+    // the closure of every sheet has the relationship parts of the sheet and of its drawing)
+    if spec.is_empty() || !spec.is_char_boundary(1) {
+        return Err("bad spec".into());
+    }
+    let deep = spec.starts_with('d');
     let seed: u64 = spec[1..].parse().map_err(|_| "bad spec".to_string())?;
     let mut rng = Rng::new(seed ^ 0x11C11);
     let r = guard(|| {
@@ -725,7 +741,7 @@ pub fn generate(spec: &str) -> Result<Vec<u8>, String> {
         }
         // charts whose series live on another sheet (or on their own)
         for i in 0..n {
-            if rng.chance(1, 3) {
+            if rng.chance(1, 3) || deep {
                 let src = if rng.chance(2, 3) { 0 } else { i };
                 let src_name = book.get_sheet_collection_no_check()[src].get_name().to_string();
                 for r in 1..=3u32 {
@@ -742,13 +758,13 @@ pub fn generate(spec: &str) -> Result<Vec<u8>, String> {
             }
         }
         // the same picture on several sheets: the closures of those sheets share the part xl/media/shared.png
-        if rng.chance(1, 2) {
+        if rng.chance(1, 2) || deep {
             const PNG: [u8; 67] = [
                 0x89, 0x50, 0x4E, 0x47, 0x0D, 0x0A, 0x1A, 0x0A, 0x00, 0x00, 0x00, 0x0D, 0x49, 0x48, 0x44, 0x52, 0x00, 0x00, 0x00, 0x01, 0x00, 0x00, 0x00, 0x01, 0x08, 0x06, 0x00, 0x00, 0x00, 0x1F, 0x15, 0xC4, 0x89, 0x00, 0x00, 0x00, 0x0A, 0x49, 0x44,
                 0x41, 0x54, 0x78, 0x9C, 0x63, 0x00, 0x01, 0x00, 0x00, 0x05, 0x00, 0x01, 0x0D, 0x0A, 0x2D, 0xB4, 0x00, 0x00, 0x00, 0x00, 0x49, 0x45, 0x4E, 0x44, 0xAE, 0x42, 0x60, 0x82,
             ];
             for i in 0..n {
-                if rng.chance(2, 3) {
+                if rng.chance(2, 3) || deep {
                     let mut marker = umya_spreadsheet::structs::drawing::spreadsheet::MarkerType::default();
                     marker.set_coordinate("N2");
                     let mut img = umya_spreadsheet::structs::Image::default();
@@ -762,6 +778,200 @@ pub fn generate(spec: &str) -> Result<Vec<u8>, String> {
     match r {
         Ok(x) => x,
         Err(_) => Err("panic while generating".into()),
+    }
+}
+
+/// EXPERIMENT (recorded, not an oracle): a package whose relationship graph has a cycle.  The library-made file
+/// `d<seed>` (every sheet: drawing with a chart and a picture) is rewritten so that xl/drawings/_rels/drawing1.xml.rels
+/// has one more relationship, back to the sheet (`sheet`: sheet1 -> drawing1 -> sheet1) or to the drawing itself
+/// (`self`: drawing1 -> drawing1).  `RawWorksheet::read_rawrelationships` follows relationship parts without a visited set.
+pub fn make_cyclic(variant: &str) -> Result<Vec<u8>, String> {
+    use std::io::Write;
+    let bytes = generate("d1")?;
+    let sk = skeleton(&bytes)?;
+    let target = match variant {
+        "sheet" => "../worksheets/sheet1.xml",
+        "self" => "../drawings/drawing1.xml",
+        "none" => return Ok(bytes),
+        _ => return Err("unknown variant".into()),
+    };
+    let name = "xl/drawings/_rels/drawing1.xml.rels";
+    if !sk.parts.contains_key(name) {
+        return Err("no drawing relationships in the generated file".into());
+    }
+    let mut zw = zip::ZipWriter::new(Cursor::new(Vec::new()));
+    let opt = zip::write::SimpleFileOptions::default().compression_method(zip::CompressionMethod::Deflated);
+    for n in &sk.order {
+        let mut data = sk.parts[n].clone();
+        if n == name {
+            let text = String::from_utf8_lossy(&data).to_string();
+            let add = format!("<Relationship Id=\"rId99\" Type=\"http://schemas.openxmlformats.org/officeDocument/2006/relationships/drawing\" Target=\"{}\"/></Relationships>", target);
+            if !text.contains("</Relationships>") {
+                return Err("relationship part without an end tag".into());
+            }
+            data = text.replacen("</Relationships>", &add, 1).into_bytes();
+        }
+        zw.start_file(n.clone(), opt).map_err(|e| e.to_string())?;
+        zw.write_all(&data).map_err(|e| e.to_string())?;
+    }
+    Ok(zw.finish().map_err(|e| e.to_string())?.into_inner())
+}
+
+/// child process of the experiment: `umya_harness c11cyclic <lazy|eager|make-sheet|make-self> 0 <file>`; opens the file
+/// (and, when that worked, saves it to memory) on the main thread; the exit status / signal is the result
+pub fn cyclic_child(mode: &str, path: &str) -> i32 {
+    if let Some(v) = mode.strip_prefix("make-") {
+        return match make_cyclic(v).and_then(|b| std::fs::write(path, b).map_err(|e| e.to_string())) {
+            Ok(()) => 0,
+            Err(e) => {
+                eprintln!("{}", e);
+                1
+            }
+        };
+    }
+    let r = if mode == "eager" { umya_spreadsheet::reader::xlsx::read(path) } else { umya_spreadsheet::reader::xlsx::lazy_read(std::path::Path::new(path)) };
+    match r {
+        Ok(book) => {
+            println!("open ok, {} sheets", book.get_sheet_count());
+            match save_book(&book) {
+                Ok(b) => {
+                    println!("save ok, {} bytes", b.len());
+                    0
+                }
+                Err(e) => {
+                    println!("save err {}", e);
+                    4
+                }
+            }
+        }
+        Err(e) => {
+            println!("open err {:?}", e);
+            3
+        }
+    }
+}
+
+/// parent side of the experiment: both variants, lazy and eager open, each in a child process with a time limit; the
+/// outcome is counted (`cyclic.<variant>.<mode>.<outcome>`) and noted, never an oracle failure
+/// one variant of the cyclic package opened in a child process: "ok", "overflow-SIGABRT", "exit-N", "timeout", "not-run"
+fn cyclic_run(variant: &str, mode: &str) -> String {
+    use std::os::unix::process::ExitStatusExt;
+    let exe = match std::env::current_exe() {
+        Ok(e) => e,
+        Err(_) => return "not-run".into(),
+    };
+    let path = std::env::temp_dir().join(format!("c11_cyc_{}_{}_{}.xlsx", variant, mode, std::process::id()));
+    match make_cyclic(variant) {
+        Ok(b) => {
+            if std::fs::write(&path, b).is_err() {
+                return "not-run".into();
+            }
+        }
+        Err(_) => return "not-run".into(),
+    }
+    let child = std::process::Command::new(&exe).args(["c11cyclic", mode, "0"]).arg(&path).stdout(std::process::Stdio::null()).stderr(std::process::Stdio::null()).spawn();
+    let mut child = match child {
+        Ok(c) => c,
+        Err(_) => return "not-run".into(),
+    };
+    let t0 = std::time::Instant::now();
+    let outcome = loop {
+        match child.try_wait() {
+            Ok(Some(s)) => {
+                break match (s.code(), s.signal()) {
+                    (Some(0), _) => "ok".to_string(),
+                    (Some(c), _) => format!("exit-{}", c),
+                    (None, Some(6)) => "overflow-SIGABRT".to_string(),
+                    (None, Some(11)) => "overflow-SIGSEGV".to_string(),
+                    (None, Some(sig)) => format!("signal-{}", sig),
+                    _ => "unknown".to_string(),
+                }
+            }
+            Ok(None) => {
+                if t0.elapsed().as_secs() >= 30 {
+                    let _ = child.kill();
+                    let _ = child.wait();
+                    break "timeout".to_string();
+                }
+                std::thread::sleep(std::time::Duration::from_millis(20));
+            }
+            Err(_) => break "unknown".to_string(),
+        }
+    };
+    let _ = std::fs::remove_file(&path);
+    outcome
+}
+
+fn cyclic_experiment(out: &mut Out) {
+    use std::os::unix::process::ExitStatusExt;
+    let exe = match std::env::current_exe() {
+        Ok(e) => e,
+        Err(_) => {
+            out.count("cyclic.not-run");
+            return;
+        }
+    };
+    for variant in ["sheet", "self"] {
+        let path = std::env::temp_dir().join(format!("c11_cyclic_{}_{}.xlsx", variant, std::process::id()));
+        match make_cyclic(variant) {
+            Ok(b) => {
+                if std::fs::write(&path, b).is_err() {
+                    out.count("cyclic.not-run");
+                    continue;
+                }
+            }
+            Err(e) => {
+                out.count("cyclic.not-made");
+                out.notes.push(format!("cyclic {}: {}", variant, e));
+                continue;
+            }
+        }
+        for mode in ["lazy", "eager"] {
+            let child = std::process::Command::new(&exe).args(["c11cyclic", mode, "0"]).arg(&path).stdout(std::process::Stdio::piped()).stderr(std::process::Stdio::piped()).spawn();
+            let mut child = match child {
+                Ok(c) => c,
+                Err(_) => {
+                    out.count("cyclic.not-run");
+                    continue;
+                }
+            };
+            let t0 = std::time::Instant::now();
+            let outcome = loop {
+                match child.try_wait() {
+                    Ok(Some(s)) => {
+                        break match (s.code(), s.signal()) {
+                            (Some(0), _) => "ok".to_string(),
+                            (Some(c), _) => format!("exit-{}", c),
+                            (None, Some(6)) => "overflow-SIGABRT".to_string(),
+                            (None, Some(11)) => "overflow-SIGSEGV".to_string(),
+                            (None, Some(sig)) => format!("signal-{}", sig),
+                            _ => "unknown".to_string(),
+                        }
+                    }
+                    Ok(None) => {
+                        if t0.elapsed().as_secs() >= 30 {
+                            let _ = child.kill();
+                            let _ = child.wait();
+                            break "timeout-30s".to_string();
+                        }
+                        std::thread::sleep(std::time::Duration::from_millis(20));
+                    }
+                    Err(_) => break "unknown".to_string(),
+                }
+            };
+            let mut text = String::new();
+            if let Some(mut so) = child.stdout.take() {
+                let _ = std::io::Read::read_to_string(&mut so, &mut text);
+            }
+            if let Some(mut se) = child.stderr.take() {
+                let _ = std::io::Read::read_to_string(&mut se, &mut text);
+            }
+            // (the thread id in the runtime's message differs from run to run: digits are dropped)
+            let text: String = text.lines().filter(|l| !l.trim().is_empty()).take(4).collect::<Vec<_>>().join(" | ").replace(|c: char| c.is_ascii_digit(), "");
+            out.count(&format!("cyclic.{}.{}.{}", variant, mode, outcome));
+            out.notes.push(format!("cyclic {} {}: {} [{}]", variant, mode, outcome, text));
+        }
+        let _ = std::fs::remove_file(&path);
     }
 }
 
@@ -905,6 +1115,9 @@ pub fn open_case(out: &mut Out, id: &str, line: &str) -> (State, Option<String>)
             out.count(&format!("reset.pkgok.{}", ok as u8));
             let mut owners: BTreeMap<String, usize> = BTreeMap::new();
             for r in &raws {
+                let depth = st.orig.as_ref().unwrap().closure_depth(&r.part, 0);
+                out.count(&format!("closure.depth.{}", if depth >= 3 { "3+".to_string() } else { depth.to_string() }));
+                out.count(&format!("closure.parts.{}", r.closure.len()));
                 out.count(&format!("reset.closure-names.{}", bucket(closure_names(r).len())));
                 for n in closure_names(r) {
                     *owners.entry(n).or_default() += 1;
@@ -931,6 +1144,18 @@ pub fn exec(out: &mut Out, st: &mut State, line: &str) -> (String, bool) {
         return ("bad-op".into(), false);
     }
     let n = |i: usize| -> usize { a.get(i).and_then(|x| x.parse().ok()).unwrap_or(usize::MAX) };
+    if a[1] == "cyc" {
+        // c11 cyc <variant> W=<sheet parts> X=<package>: the REAL lazy reader on that package, in a child process
+        // (a stack overflow aborts the process); `open=0` = it did not come back with a workbook
+        let variant = a.get(2).copied().unwrap_or("");
+        let outcome = cyclic_run(variant, "lazy");
+        out.count(&format!("cyc.{}.{}", variant, outcome));
+        return match outcome.as_str() {
+            "ok" => ("ok open=1".into(), true),
+            "not-run" => ("unmodelled".into(), false),
+            _ => ("ok open=0".into(), true),
+        };
+    }
     if a[1] == "reset" {
         // c11 reset <file id> [D=<description>]: the files were opened by `open_case` (see `run`) before the
         // request line was written, because the description is part of the line
@@ -1806,6 +2031,14 @@ pub fn run(out: &mut Out, tier: Tier, seed: u64, replay: Option<Vec<String>>) {
             if let Some(d) = d {
                 full = format!("{} D={}", full, d);
             }
+        } else if a.len() >= 3 && a[1] == "cyc" {
+            // the package with a cyclic (or, variant `none`, the same acyclic) relationship graph, as the model's reader sees it
+            if let Ok(b) = make_cyclic(a[2]) {
+                if let Ok(sk) = skeleton(&b) {
+                    let sp: Vec<String> = sk.sheet_parts().into_iter().flatten().map(|p| hex(&p)).collect();
+                    full = format!("{} W={} X={}", full, sp.join(";"), describe_pkg(&sk));
+                }
+            }
         } else if a.len() >= 2 && a[1] == "inv" && !st.dead {
             if let Some(Ok(d)) = st.lazy.as_ref().map(|l| guard(|| describe_state(l))) {
                 full = format!("{} S={}", full, d);
@@ -1862,6 +2095,9 @@ pub fn run(out: &mut Out, tier: Tier, seed: u64, replay: Option<Vec<String>>) {
         for g in 0..20 {
             files.push(format!("gen:g{}", seed.wrapping_add(g) % 100000));
         }
+        for g in 0..6 {
+            files.push(format!("gen:d{}", seed.wrapping_add(g) % 100000));
+        }
         per_file = 24;
     } else {
         for n in CORPUS_QUICK.iter() {
@@ -1870,7 +2106,17 @@ pub fn run(out: &mut Out, tier: Tier, seed: u64, replay: Option<Vec<String>>) {
         for g in 0..6 {
             files.push(format!("gen:g{}", seed.wrapping_add(g) % 100000));
         }
+        for g in 0..2 {
+            files.push(format!("gen:d{}", seed.wrapping_add(g) % 100000));
+        }
         per_file = 40;
+    }
+    // the experiment with cyclic relationship graphs (child processes; counted only)
+    cyclic_experiment(out);
+    // ... and tied to the model: the model's reader on the same packages (C11_read_closure_cyclic: `none` for every fuel;
+    // variant `none` = the same package without the extra relationship: C11_read_closure_fuel)
+    for l in ["c11 cyc sheet", "c11 cyc self", "c11 cyc none"] {
+        step1(out, &mut st, l);
     }
     // the witness of the repaired defect (C11_old_rels_fails) is replayed on every run
     for l in ["c11 reset corpus:aaa.xlsx", "c11 rmsheet 0", "c11 save"] {
